@@ -11,6 +11,7 @@
 import JV.Proofs.Number
 import JV.Proofs.BigInt
 import JV.Proofs.BigIntMul
+import JV.Proofs.BigIntShift
 namespace JV.Props.C04
 open JV Model
 
@@ -98,6 +99,21 @@ theorem bigint_mul_signed (a b : BigInt.Big) (ha : BigInt.Words a.mag) (hb : Big
     BigInt.toInt (BigInt.mul a b) = BigInt.toInt a * BigInt.toInt b :=
   BigInt.mul_toInt a b ha hb hlen
 
+/-- `operator<<=`: whole-word move, then per-word `(w << k) | (prev >> (64-k))`, is multiplication by 2^k -/
+theorem bigint_shl_exact (x : List Nat) (k : Nat) (hx : BigInt.Words x) :
+    BigInt.val (BigInt.shlRaw x k) = BigInt.val x * 2 ^ k :=
+  BigInt.shlRaw_val x k hx
+
+theorem bigint_shl_signed (a : BigInt.Big) (k : Nat) (ha : BigInt.Words a.mag) :
+    BigInt.toInt (BigInt.shl a k) = BigInt.toInt a * 2 ^ k :=
+  BigInt.shl_toInt a k ha
+
+/-- `operator>>=` is floor division of the magnitude by 2^k (a negative value is truncated towards zero, not
+    floored), whichever exit is taken; it never turns the sign flag on -/
+theorem bigint_shr_exact (a : BigInt.Big) (k : Nat) (ha : BigInt.Words a.mag) :
+    BigInt.val (BigInt.shr a k).mag = BigInt.val a.mag / 2 ^ k ∧ ((BigInt.shr a k).neg = true → a.neg = true) :=
+  BigInt.shr_val a k ha
+
 /-! ### non-vacuity -/
 example : decToU64 [49, 56, 52, 52, 54, 55, 52, 52, 48, 55, 51, 55, 48, 57, 53, 53, 49, 54, 49, 53] = .ok (2 ^ 64 - 1) := by rfl
 example : decToU64 [49, 56, 52, 52, 54, 55, 52, 52, 48, 55, 51, 55, 48, 57, 53, 53, 49, 54, 49, 54] = .error .range := by rfl
@@ -107,5 +123,9 @@ example : BigInt.subLoop [0, 0, 1] [1, 1] 0 = [BigInt.B - 1, BigInt.B - 2, 0] :=
 example : BigInt.ddproduct (BigInt.B - 1) (BigInt.B - 1) = (BigInt.B - 2, 1) := by decide
 example : BigInt.mulWord [BigInt.B - 1, BigInt.B - 1] (BigInt.B - 1) = [1, BigInt.B - 1, BigInt.B - 2] := by decide
 example : BigInt.mulMag [BigInt.B - 1, BigInt.B - 1] [BigInt.B - 1, BigInt.B - 1] = [1, 0, BigInt.B - 2, BigInt.B - 1] := by decide
+example : BigInt.shlRaw [BigInt.B - 1, 1] 65 = [0, BigInt.B - 2, 3, 0] := by decide
+example : BigInt.shr { neg := true, mag := [BigInt.B - 1, 1] } 1 = { neg := true, mag := [BigInt.B - 1] } := by decide
+-- every word shifted out: size 0 but the sign flag survives (no `reduce()` on that exit)
+example : BigInt.shr { neg := true, mag := [5] } 64 = { neg := true, mag := [] } := by decide
 
 end JV.Props.C04
